@@ -107,3 +107,42 @@ func VerifH_C05_killed_is_reported() {
 	verifAssert(ctx.UsedResources().Cpu < L, "reported-used-below-limit")
 	verifAssert(m.parent == nil && m.status == StatusLive, "root-continues")
 }
+
+// K2: a kill inside a nested context that has no CPU limit of its own (the
+// shape of pcall / xpcall / callcontext({})) must not be interceptable: the
+// enclosing limited context may not run on.  The real Thread.CallContext is
+// used for both levels; the work done is a symbolic RequireCPU.
+func VerifH_C05_kill_not_interceptable() {
+	_, t := vhNewRuntime()
+	L := nondetUint64("L")
+	verifAssume(L >= 2 && L < (uint64(1)<<40))
+	a := nondetUint64("a")
+	verifAssume(a < (uint64(1) << 40))
+	ranAfterKill := false
+	innerKilled := false
+	outer, outerErr := t.CallContext(RuntimeContextDef{HardLimits: RuntimeResources{Cpu: L}}, func() error {
+		inner, _ := t.CallContext(RuntimeContextDef{}, func() error {
+			t.RequireCPU(a) // terminates the inner context iff a >= L
+			return nil
+		})
+		if inner != nil && inner.Status() == StatusKilled {
+			innerKilled = true
+			// the limit L of the enclosing context was hit: no further code of
+			// that context may run, i.e. its next instruction must terminate it
+			t.RequireCPU(1)
+			ranAfterKill = true
+		}
+		return nil
+	})
+	_ = outerErr
+	verifAssert(!innerKilled || a >= L, "inner-context-killed-only-when-limit-reached")
+	verifAssert(!ranAfterKill, "kill-not-interceptable-by-nested-context")
+	if a >= L {
+		verifReach("limit-hit")
+		verifAssert(outer != nil && outer.Status() == StatusKilled, "limited-context-reported-killed")
+		verifAssert(outer != nil && outer.UsedResources().Cpu < L, "reported-usage-below-limit")
+	} else {
+		verifReach("within-limit")
+		verifAssert(outer != nil && outer.Status() == StatusDone && outer.UsedResources().Cpu == a, "completes-with-exact-usage")
+	}
+}
